@@ -31,6 +31,7 @@ type Case struct {
 	Content  hx.Hex
 	AuthCode bool // go through authenticode.SignAuthenticode(stream) instead of SignPKCS7
 	OpenSSL  bool // also ask the openssl CLI (sampled: process spawns are slow)
+	TZMin    int  // process time zone offset from UTC in minutes while signing (the signing time attribute is UTC whatever the zone)
 }
 
 func genElements(t *rapid.T) []byte {
@@ -95,6 +96,9 @@ func genCase(t *rapid.T) Case {
 		}
 	}
 	c.OpenSSL = rapid.IntRange(0, 9).Draw(t, "openssl") == 0 || hx.Thorough() && rapid.IntRange(0, 2).Draw(t, "openssl2") == 0
+	if rapid.IntRange(0, 2).Draw(t, "utc") != 0 {
+		c.TZMin = 15 * rapid.IntRange(-48, 56).Draw(t, "tzquarters")
+	}
 	return c
 }
 
@@ -218,6 +222,12 @@ func checkCase(c Case) error {
 	oid := encasn1.ObjectIdentifier(c.OID)
 	isData := oid.Equal(pkcs7.OIDData)
 	content := []byte(c.Content)
+	if c.TZMin != 0 {
+		saved := time.Local
+		time.Local = time.FixedZone("verif", c.TZMin*60)
+		defer func() { time.Local = saved }()
+		hx.Class("process_time_zone_not_utc")
+	}
 	var blob []byte
 	if c.AuthCode {
 		blob, err = authenticode.SignAuthenticode(id.Priv(), id.Cert, bytes.NewReader(c.Content), crypto.SHA256)
